@@ -108,7 +108,10 @@ func (p *parser) advance() bool {
 			// ignore
 
 		} else if char == '#' {
-			p.next()
+			// skip the character after '#', unless the comment is empty
+			if c := p.next(); c < 0 || c == '\n' {
+				p.backup()
+			}
 			start := p.position
 			for {
 				c := p.next()
@@ -121,7 +124,10 @@ func (p *parser) advance() bool {
 				p.lastComment.WriteByte('\n')
 			}
 			p.lastComment.WriteString(p.input[start:p.position])
-			p.next()
+			// consume the terminating newline, if any
+			if p.next() < 0 {
+				p.backup()
+			}
 
 		} else {
 			p.backup()
